@@ -122,3 +122,13 @@ for _pid in ('C04', 'C08'):
 mut('C04', 'demand-outflow-booked-as-inflow', [(SEC, "                s.AddCashFlow('-' + var_name, '', long_desc)", "                s.AddCashFlow('+' + var_name, '', long_desc)")], ['demander_is_booked', '_GenerateTermsLowLevel', 'inv_step'])
 mut('C04', 'demand-long-name-everywhere', [(SEC, "            if self.ShareParent(s):\n                var_name = short_name\n            else:\n                var_name = long_name", "            if self.ShareParent(s):\n                var_name = short_name\n            else:\n                var_name = short_name")], ['each_included_sector_has_its_term', 'included_iff', 'markets', '_GenerateTermsLowLevel'])
 mut('C08', 'business-labour-demand-created-late', [('sector_definitions.py', "        self.AddVariable('DEM_' + labour_input_name, 'Demand for labour', '')\n", "")], ['labour_demand_declared', 'permutations'])
+
+# ---- C14 ---------------------------------------------------------------------------------------------
+EP = 'equation_parser.py'
+mut('C14', 'marker-on-raw-line', [(EP, "            if 'exogenous' in code_part.lower() or (len(code_part.strip()) == 0 and 'exogenous' in equation.lower()):", "            if 'exogenous' in equation.lower():")], ['marker_only', 'comment_text_cannot', 'blocks'])
+mut('C14', 'comment-cut-at-last-hash', [(EP, "            pos = equation.find('#')\n            code_part = equation", "            pos = equation.rfind('#')\n            code_part = equation")], ['comment_text_cannot', 'blocks', 'ParseString'])
+mut('C14', 'no-default-time-axis', [(EP, "        if not found_t:\n            self.Endogenous.append(('t', 'k'))\n            self.AllEquations['t'] = 'k'", "        if not found_t:\n            self.Endogenous.append(('t', 'k'))")], ['a_time_variable_exists'])
+mut('C14', 'lag-spelling-t-dropped', [(EP, "                eqn = eqn.replace('(t-1)', '(k-1)')\n", "")], ['blocks'], deductive_only=False)
+mut('C14', 'initial-condition-in-exogenous-section-misfiled', [(EP, "            if mode == 'endogenous':\n                # Remove initial conditions equations", "            if True:\n                # Remove initial conditions equations")], ['blocks'], deductive_only=False)
+ben('C14', 'rename-code-part', [(EP, "            code_part = equation\n            if pos > -1:\n                code_part = equation[0:pos]\n            if 'exogenous' in code_part.lower() or (len(code_part.strip()) == 0 and 'exogenous' in equation.lower()):\n                mode = 'exogenous'\n                continue\n            # Remove comments (like this one!)\n            equation = code_part.strip()",
+    "            code = equation\n            if pos > -1:\n                code = equation[0:pos]\n            if 'exogenous' in code.lower() or (len(code.strip()) == 0 and 'exogenous' in equation.lower()):\n                mode = 'exogenous'\n                continue\n            # Remove comments (like this one!)\n            equation = code.strip()")])
